@@ -148,6 +148,18 @@ type bItem struct {
 	// recovery: the server runs with connection state recovery, i.e. on the session-aware adapter, whose
 	// Broadcast is its own code path (encode once, log, fan out the frames)
 	recovery bool
+	// pre: index into preProgs - what a namespace middleware does to the FIRST socket before it is connected
+	pre int
+}
+
+// preProgs: joins and leaves issued from a namespace middleware, i.e. before the socket is connected (its
+// own-id room is joined afterwards). Membership is the net effect of ALL joins and leaves of the socket.
+var preProgs = [][]bop{
+	nil,
+	{{Kind: "Join", R: 1}, {Kind: "Leave", R: 1}},
+	{{Kind: "Join", R: 3}, {Kind: "Leave", R: 1}},
+	{{Kind: "Join", R: 2}},
+	{{Kind: "Leave", R: 1}, {Kind: "Join", R: 1}},
 }
 
 // bItems enumerates, on the model alone, the histories to replay: BFS from every seed, deduplicated
@@ -181,14 +193,14 @@ func bItems(tier string) (items []bItem, states int, desc []map[string]any) {
 			seen[m.key()] = true
 			st++
 			frontier = append(frontier, node{seed, nil, m})
-			items = append(items, bItem{c.nrooms, seed, nil, false}, bItem{c.nrooms, seed, nil, true})
+			items = append(items, bItem{c.nrooms, seed, nil, false, 0}, bItem{c.nrooms, seed, nil, true, 0})
 		}
 		for d := 0; d < c.depth; d++ {
 			var next []node
 			for _, n := range frontier {
 				for _, o := range ops {
 					hist := append(append([]bop{}, n.hist...), o)
-					items = append(items, bItem{c.nrooms, n.setup, hist, false}, bItem{c.nrooms, n.setup, hist, true})
+					items = append(items, bItem{c.nrooms, n.setup, hist, false, 0}, bItem{c.nrooms, n.setup, hist, true, 0})
 					m := n.m
 					bApply(&m, o)
 					if !seen[m.key()] {
@@ -199,6 +211,19 @@ func bItems(tier string) (items []bItem, states int, desc []map[string]any) {
 				}
 			}
 			frontier = next
+		}
+		if c.nrooms == 2 {
+			// joins / leaves before the connection is complete, then the empty history and every single operation
+			n1 := len(items)
+			for pre := 1; pre < len(preProgs); pre++ {
+				for _, rec := range []bool{false, true} {
+					items = append(items, bItem{c.nrooms, nil, nil, rec, pre})
+					for _, o := range ops {
+						items = append(items, bItem{c.nrooms, nil, []bop{o}, rec, pre})
+					}
+				}
+			}
+			desc = append(desc, map[string]any{"named_rooms": c.nrooms, "pre_connect_middleware_programs": len(preProgs) - 1, "depth": 1, "histories": len(items) - n1})
 		}
 		states += st
 		desc = append(desc, map[string]any{"named_rooms": c.nrooms, "depth": c.depth, "seeds": c.seeds, "alphabet": len(ops), "model_states": st, "histories": len(items) - n0, "frontier_left": len(frontier)})
@@ -235,7 +260,7 @@ type expect struct {
 
 func replayB(idx int, it bItem, out *bOut) {
 	full := append(append([]bop{}, it.setup...), it.hist...)
-	replay := map[string]any{"part": "B", "setup": bHistStr(it.setup), "history": bHistStr(it.hist), "named_rooms": it.nrooms, "setup_ops": it.setup, "ops": it.hist, "recovery": it.recovery}
+	replay := map[string]any{"part": "B", "setup": bHistStr(it.setup), "history": bHistStr(it.hist), "named_rooms": it.nrooms, "setup_ops": it.setup, "ops": it.hist, "recovery": it.recovery, "pre": it.pre}
 	seenKey := map[string]bool{}
 	viol := func(key, detail string) {
 		if seenKey[key] {
@@ -245,6 +270,9 @@ func replayB(idx int, it bItem, out *bOut) {
 		ad := ""
 		if it.recovery {
 			ad = " (connection state recovery on: session-aware adapter)"
+		}
+		if it.pre > 0 {
+			ad += fmt.Sprintf(" (a namespace middleware did [%s] on s1 before it was connected)", strings.ReplaceAll(bHistStr(preProgs[it.pre]), "s1.", ""))
 		}
 		out.Violations = append(out.Violations, bViolation{idx, len(full), key, fmt.Sprintf("set-up [%s] history [%s]%s: %s", bHistStr(it.setup), bHistStr(it.hist), ad, detail), replay})
 	}
@@ -257,6 +285,23 @@ func replayB(idx int, it bItem, out *bOut) {
 		var v vsched.Var
 		var socks []sio.ServerSocket
 		nsp.OnConnection(func(s sio.ServerSocket) { v.Do(func() { socks = append(socks, s) }) })
+		if it.pre > 0 {
+			admitted := 0
+			nsp.Use(func(s sio.ServerSocket, h *sio.Handshake) any {
+				first := false
+				v.Do(func() { first = admitted == 0; admitted++ })
+				if first {
+					for _, o := range preProgs[it.pre] {
+						if o.Kind == "Join" {
+							s.Join(roomsOf(o.R)...)
+						} else {
+							s.Leave(roomsOf(o.R)[0])
+						}
+					}
+				}
+				return nil
+			})
+		}
 		var fakes [3]*vrig.FakeEIO
 		for i := range fakes {
 			fakes[i] = vrig.NewFakeEIO(srv, fmt.Sprintf("c04-%d", i))
@@ -294,6 +339,9 @@ func replayB(idx int, it bItem, out *bOut) {
 			return s
 		}
 		m := bInitial()
+		for _, o := range preProgs[it.pre] {
+			bApply(&m, o) // S is 0: the first socket
+		}
 		check := func(lastKind string) bool {
 			ok := true
 			lv := func(key, detail string) { ok = false; viol(key, detail) }
